@@ -90,14 +90,21 @@ var c06Reverse = probe.Define("C06", "reverse", func(t *rapid.T) c06RevIn {
 	n := model.ChainSize(in.Msg.Payloads)
 	base := 15 - n%16
 	tried := 0
+	iv := []byte(in.IV)
 	for p := base; p <= 255; p += 16 {
 		pad := make([]byte, p)
 		for i := range pad {
 			pad[i] = byte(i)*in.PadSeed + in.PadSeed
 		}
-		w, err := refProtect(in.Msg, in.Suite, in.Keys, in.SendI, in.IV, p, pad)
+		w, err := refProtect(in.Msg, in.Suite, in.Keys, in.SendI, iv, p, pad)
 		if err != nil {
 			return probe.Fail("HARNESS: reference SK builder: %v", err)
+		}
+		if in.PadSeed%2 == 1 {
+			// this peer chains its IVs: the next message's IV is the last ciphertext block of this one (older implementations do
+			// that; a receiver accepts whatever IV the message carries)
+			icv := in.Suite.Ref().Integ.OutLen
+			iv = append([]byte(nil), w[len(w)-icv-16:len(w)-icv]...)
 		}
 		got, err := libUnprotect(w, sa, !in.SendI, in.WithHdr)
 		if err != nil {
